@@ -42,6 +42,9 @@ type c09Case struct {
 	Busy bool `json:"busy,omitempty"`
 	// ThenFin: the remote closes right behind an illegal message, in the same burst
 	ThenFin bool `json:"then_fin,omitempty"`
+	// Hold0: the remote's OPEN proposes hold time 0 (no session timers); every
+	// cell of the table must read the same
+	Hold0 bool `json:"hold0,omitempty"`
 }
 
 var stimTypes = map[string]uint8{"open": 1, "update": 2, "notification": 3, "keepalive": 4}
@@ -64,7 +67,7 @@ func c09Prop(t *testing.T, r *hx.Run, sub string) func(c c09Case) hx.Verdict {
 			dir = "out"
 		}
 		v := hx.Verdict{Class: fmt.Sprintf("%s/%s/%s", c.State, c.Stim, dir)}
-		v.NT = fmt.Sprintf("%s/%s/%s/%v/%x/%d/%d/%v/%d/%v/%v", c.State, c.Stim, dir, c.Notif, []byte(c.Raw), c.UpdLen, c.Hold, c.Prev, c.Partial, c.Busy, c.ThenFin)
+		v.NT = fmt.Sprintf("%s/%s/%s/%v/%x/%d/%d/%v/%d/%v/%v", c.State, c.Stim, dir, c.Notif, []byte(c.Raw), c.UpdLen, c.Hold, c.Prev, c.Partial, c.Busy, c.ThenFin) + fmt.Sprint(c.Hold0)
 		p := basePeer(c.Out)
 		var dev *hx.Dev
 		fail := func(key, f string, a ...any) {
@@ -127,7 +130,11 @@ func c09Prop(t *testing.T, r *hx.Run, sub string) func(c c09Case) hx.Verdict {
 				return
 			}
 			func() {
-				hs := handshakeBytes(p, conn, c.State, 90)
+				rhold := uint16(90)
+				if c.Hold0 {
+					rhold = 0
+				}
+				hs := handshakeBytes(p, conn, c.State, rhold)
 				var lead []byte // sent in one stream with the stimulus
 				if busy && c.State == stOpenConfirm {
 					lead, hs = hs[len(hs)-1], hs[:len(hs)-1]
@@ -349,6 +356,13 @@ func TestC09(t *testing.T) {
 						if !yield(c) {
 							return
 						}
+						if len(prev) == 0 {
+							c3 := c
+							c3.Hold0 = true
+							if !yield(c3) {
+								return
+							}
+						}
 						if s != "fin" && s != "rst" && len(prev) < 2 {
 							for _, bf := range [][2]bool{{true, false}, {false, true}, {true, true}} {
 								c2 := c
@@ -414,6 +428,7 @@ func TestC09(t *testing.T) {
 				c.Prev = append(c.Prev, pick(rt, "prevend", "cease", "fin"))
 			}
 		}
+		c.Hold0 = rapid.IntRange(0, 3).Draw(rt, "hold0") == 0
 		c.Busy = rapid.IntRange(0, 2).Draw(rt, "busy") == 0
 		c.ThenFin = rapid.IntRange(0, 2).Draw(rt, "thenfin") == 0
 		return c
